@@ -287,59 +287,35 @@ func (c *Ctx) loopBodyStart(in ssa.Instruction) ssa.Instruction {
 // in-flight entry is removed on every path afterwards, so a repeated response cannot set the sink up again.
 func (c *Ctx) singleSinkSetup(rule string) {
 	p, r := c.P, c.R
-	w := c.ws()
-	if !c.needWS(rule, "resp", w.Resp) || !c.need(rule, "F_retCh", r.FRetCh != nil) {
+	if !c.need(rule, "F_retCh", r.FRetCh != nil) || !c.need(rule, "F_inflight", r.FInflight != nil) {
 		return
 	}
-	var lk *ssa.Lookup
-	for _, u := range usesOfKind(usesIn(p.uses(r.FInflight), w.Resp), "maplookup") {
-		lk = u.At.(*ssa.Lookup)
+	// keys under which in-flight entries are looked up when a response arrives
+	var lkKeys [][]apath
+	for _, u := range usesOfKind(p.uses(r.FInflight), "maplookup") {
+		lkKeys = append(lkKeys, c.origins(u.At.(*ssa.Lookup).Index))
 	}
 	isDel := func(x ssa.Instruction) bool {
 		ci, ok := isBuiltinCall(x, "delete")
-		return ok && lk != nil && isLoadOf(ci.Call.Args[0], r.FInflight) && sameVal(ci.Call.Args[1], lk.Index)
+		if !ok || !c.fieldVal(ci.Call.Args[0], r.FInflight) {
+			return false
+		}
+		ks := c.origins(ci.Call.Args[1])
+		for _, lk := range lkKeys {
+			if samePaths(ks, lk) {
+				return true
+			}
+		}
+		return false
 	}
 	n := 0
 	for _, u := range usesOfKind(p.uses(r.FRetCh), "call") {
 		n++
 		construct := fmt.Sprintf("%s: sink set up once per request", fname(u.Fn))
-		var anchor ssa.Instruction = u.At
-		if u.Fn != w.Resp {
-			// helper: use its call site in the response handler
-			sites := callsTo(w.Resp, u.Fn)
-			if len(sites) == 0 {
-				c.bad(rule, construct, c.ipos(u.At), "sinks are set up outside the response handler")
-				continue
-			}
-			anchor = sites[0]
-		}
-		// on every path on which the caller is released (completion sent) the entry is removed
-		released := func(x ssa.Instruction) bool {
-			if s, ok := x.(*ssa.Send); ok {
-				if ch, ok := s.Chan.Type().Underlying().(*types.Chan); ok && ch.Elem() == types.Type(r.TCresp) {
-					return true
-				}
-			}
-			if u.Fn != w.Resp && isCallTo(x, u.Fn) {
-				return true
-			}
-			return false
-		}
-		bad := false
-		var rel ssa.Instruction
-		if released(anchor) {
-			rel = anchor
+		if ret := mustFollowFrom(u.At, isDel); ret != nil {
+			c.bad(rule, construct, c.ipos(ret), "after the sink was set up the response handling can end without removing the in-flight entry: a repeated channel-id response runs the sink constructor again and re-points the channel id at a fresh sink nobody holds — the caller's channel then never receives values and is never closed")
 		} else {
-			rel = reachFrom(anchor, released, nil)
-		}
-		if rel != nil {
-			if ret := reachFrom(rel, isReturn, isDel); ret != nil {
-				bad = true
-				c.bad(rule, construct, c.ipos(ret), "after the sink was set up and the caller released, the response handler can return without removing the in-flight entry: a repeated channel-id response runs the sink constructor again and re-points the channel id at a fresh sink nobody holds — the caller's channel then never receives values and is never closed")
-			}
-		}
-		if !bad {
-			c.ok(rule, construct, c.ipos(u.At), "entry removed on every path after delivery")
+			c.ok(rule, construct, c.ipos(u.At), "entry removed on every path after the sink was set up")
 		}
 	}
 	if n == 0 {
